@@ -10,12 +10,18 @@ AST on every run: the `gen_*` theorems are re-checked against what the code says
 
 * General lemmas (any sizes, no table): integer-rate channel arithmetic, stride selection,
   exactness of the spatial pass on multiples of the max stride in either pooling state.
-* The finite grid named by the property: `arch_grid_ok_partial` (certificate for every
+* The finite grid named by the property, for the tree **as it is now** (HEAD of /repo: fixes 24db0b1
+  and e4cd03e applied, model flags `fixMid = fixWrap = true`): `arch_grid_ok` (certificate for every
   documented-valid, *supported* configuration; `decide +kernel` over the factored table — a proof
   because here the quantifier *is* the table) and `arch_contract` (certificate ⇒ contracted
   output shapes for **every** input `a·S × b·S`, pooling state and call history).
-* The full statement `ArchGridFull` (documented-valid ⇒ contract, without `supported`) is false of
-  the code: three counterexamples (= known findings F-C14-*), each replayed on the real `Model`.
+* The full statement `ArchGridFull` (documented-valid ⇒ contract, without `supported`) is still false
+  of the code: `convs_per_block = 1` (known finding F-C14-convs-per-block).  The two repaired defects
+  are recorded as `…_asIs_counterexample` lemmas about the model with the flags off (the tree
+  before the fixes), together with the fact that the flag repairs the witness.
+* Inputs that are **not** multiples of the max stride are outside the property (`arch_contract`
+  needs `a·S × b·S`): `offgrid_counterexample_*` show both a raise and a silently smaller output
+  there; the harness samples that region with a size-agnostic oracle only.
 * Eval-mode numerical determinism of torch kernels is *not* modelled (tested by the harness);
   the only state the architecture code itself keeps — `MaxPool2dWithSamePadding.padding` — is
   covered by `maxpool_state_irrelevant` / `call_history_irrelevant`.
@@ -120,17 +126,31 @@ theorem up_interpolate_irrelevant (c : Cfg) (h : wellFormed { c with upInterp :=
     certificate.  **False of the code** (see the counterexamples below). -/
 def ArchGridFull : Prop := ∀ c, inGrid c = true → docValid c = true → wellFormed c = true
 
-/-- The grid theorem (`arch_grid_ok` of the design), under the extra hypothesis `supported`:
-    UNet needs `convs_per_block ≥ 2` and (`middle_block` or `filters_rate = 1`); the ConvNeXt / Swin
-    wrappers need `filters_rate = 2` and `output_stride ≤ stem_patch_stride`. -/
-theorem arch_grid_ok_partial (c : Cfg) (hin : inGrid c = true) (hdoc : docValid c = true)
+/-- **The grid theorem** for the tree as it is now (`inGrid` requires `fixMid = fixWrap = true`), under
+    the extra hypothesis `supported`: UNet needs `convs_per_block ≥ 2`; the ConvNeXt / Swin wrappers
+    need `filters_rate = 2`.  (`middle_block = False` with any rate and wrapper
+    `output_stride > stem_patch_stride` are covered since the two fixes.) -/
+theorem arch_grid_ok (c : Cfg) (hin : inGrid c = true) (hdoc : docValid c = true)
     (hsup : supported c = true) : wellFormed c = true := grid_wellFormed c hin hdoc hsup
+
+/-- convention name: the grid theorem is the `_partial` form of `ArchGridFull` -/
+theorem arch_grid_ok_partial (c : Cfg) (hin : inGrid c = true) (hdoc : docValid c = true)
+    (hsup : supported c = true) : wellFormed c = true := arch_grid_ok c hin hdoc hsup
 
 def exampleCfg : Cfg :=
   { fam := .unet, variant := 0, filters := 24, rate := ⟨3, 2⟩, maxStride := 32, bos := 2, stem := 4,
-    cpb := 3, middle := true, upInterp := false, inCh := 1, heads := [⟨2, 13⟩, ⟨8, 10⟩] }
+    cpb := 3, middle := false, upInterp := false, inCh := 1, heads := [⟨2, 13⟩, ⟨8, 10⟩],
+    fixMid := true, fixWrap := true }
+
+/-- a Swin-T centroid model with `output_stride = 4 > stem_patch_stride = 2` (valid since e4cd03e) -/
+def exampleWrapCfg : Cfg :=
+  { fam := .swint, variant := 2, filters := 0, rate := ⟨2, 1⟩, maxStride := 16, bos := 4, stem := 2,
+    cpb := 2, middle := true, upInterp := true, inCh := 1, heads := [⟨4, 1⟩],
+    fixMid := true, fixWrap := true }
 
 example : inGrid exampleCfg = true ∧ docValid exampleCfg = true ∧ supported exampleCfg = true := by decide
+example : inGrid exampleWrapCfg = true ∧ docValid exampleWrapCfg = true ∧ supported exampleWrapCfg = true := by
+  decide
 
 /-- **The contract.**  For every documented-valid, supported configuration of the grid, every
     input whose sides are positive multiples `a·S`, `b·S` of the max stride and either pooling
@@ -180,43 +200,88 @@ theorem head_stride_eq_max_rejected :
          | .err (.value n) => n == ms
          | _ => false)) = true := by decide +kernel
 
-/-! ## the full statement is false of the code: three counterexamples (known findings) -/
-
-def witnessMiddleBlock : Cfg :=
-  { fam := .unet, variant := 0, filters := 8, rate := ⟨2, 1⟩, maxStride := 8, bos := 2, stem := 0,
-    cpb := 2, middle := false, upInterp := true, inCh := 1, heads := [⟨2, 3⟩] }
+/-! ## the full statement is still false of the code: `convs_per_block = 1` (known finding) -/
 
 def witnessConvsPerBlock : Cfg :=
   { fam := .unet, variant := 0, filters := 8, rate := ⟨2, 1⟩, maxStride := 8, bos := 2, stem := 0,
-    cpb := 1, middle := true, upInterp := true, inCh := 1, heads := [⟨2, 3⟩] }
+    cpb := 1, middle := true, upInterp := true, inCh := 1, heads := [⟨2, 3⟩],
+    fixMid := true, fixWrap := true }
 
-def witnessWrapperStride : Cfg :=
-  { fam := .swint, variant := 0, filters := 0, rate := ⟨2, 1⟩, maxStride := 16, bos := 4, stem := 2,
-    cpb := 2, middle := true, upInterp := true, inCh := 1, heads := [⟨4, 1⟩] }
-
-/-- F-C14-middle-block: `middle_block = False`, `filters_rate = 2` — forward raises. -/
-theorem arch_full_counterexample_middle_block :
-    inGrid witnessMiddleBlock = true ∧ docValid witnessMiddleBlock = true ∧
-      run witnessMiddleBlock true 16 16 = .err .runtime ∧ wellFormed witnessMiddleBlock = false := by
-  decide +kernel
-
-/-- F-C14-convs-per-block: `convs_per_block = 1` — forward raises. -/
+/-- F-C14-convs-per-block: `convs_per_block = 1` — forward raises (tree as it is now). -/
 theorem arch_full_counterexample_convs_per_block :
     inGrid witnessConvsPerBlock = true ∧ docValid witnessConvsPerBlock = true ∧
       run witnessConvsPerBlock true 16 16 = .err .runtime ∧ wellFormed witnessConvsPerBlock = false := by
   decide +kernel
 
-/-- F-C14-wrapper-output-stride: Swin-T, `stem_patch_stride = 2`, `output_stride = 4` — forward raises. -/
-theorem arch_full_counterexample_wrapper_output_stride :
-    inGrid witnessWrapperStride = true ∧ docValid witnessWrapperStride = true ∧
-      run witnessWrapperStride true 32 32 = .err .runtime ∧ wellFormed witnessWrapperStride = false := by
-  decide +kernel
-
 theorem arch_grid_full_false : ¬ ArchGridFull := by
   intro h
-  have := h witnessMiddleBlock arch_full_counterexample_middle_block.1 arch_full_counterexample_middle_block.2.1
-  rw [arch_full_counterexample_middle_block.2.2.2] at this
+  have := h witnessConvsPerBlock arch_full_counterexample_convs_per_block.1
+    arch_full_counterexample_convs_per_block.2.1
+  rw [arch_full_counterexample_convs_per_block.2.2.2] at this
   cases this
+
+/-! ## the two repaired defects, recorded about the model *as it was* (flags off) -/
+
+/-- the tree before 24db0b1 / e4cd03e: witness of F-C14-middle-block -/
+def witnessMiddleBlockAsIs : Cfg :=
+  { fam := .unet, variant := 0, filters := 8, rate := ⟨2, 1⟩, maxStride := 8, bos := 2, stem := 0,
+    cpb := 2, middle := false, upInterp := true, inCh := 1, heads := [⟨2, 3⟩],
+    fixMid := false, fixWrap := false }
+
+/-- witness of F-C14-wrapper-output-stride before the fix -/
+def witnessWrapperStrideAsIs : Cfg :=
+  { fam := .swint, variant := 0, filters := 0, rate := ⟨2, 1⟩, maxStride := 16, bos := 4, stem := 2,
+    cpb := 2, middle := true, upInterp := true, inCh := 1, heads := [⟨4, 1⟩],
+    fixMid := false, fixWrap := false }
+
+/-- F-C14-middle-block (fixed by 24db0b1): with the flag off the documented-valid witness raises in
+    forward; with the flag on it carries the certificate (and is inside `arch_grid_ok`). -/
+theorem arch_middle_block_asIs_counterexample :
+    docValid witnessMiddleBlockAsIs = true ∧
+      run witnessMiddleBlockAsIs true 16 16 = .err .runtime ∧
+      wellFormed witnessMiddleBlockAsIs = false ∧
+      wellFormed { witnessMiddleBlockAsIs with fixMid := true, fixWrap := true } = true ∧
+      inGrid { witnessMiddleBlockAsIs with fixMid := true, fixWrap := true } = true := by
+  decide +kernel
+
+/-- F-C14-wrapper-output-stride (fixed by e4cd03e): same for Swin-T, stem 2, output stride 4. -/
+theorem arch_wrapper_output_stride_asIs_counterexample :
+    docValid witnessWrapperStrideAsIs = true ∧
+      run witnessWrapperStrideAsIs true 32 32 = .err .runtime ∧
+      wellFormed witnessWrapperStrideAsIs = false ∧
+      wellFormed { witnessWrapperStrideAsIs with fixMid := true, fixWrap := true } = true ∧
+      inGrid { witnessWrapperStrideAsIs with fixMid := true, fixWrap := true } = true := by
+  decide +kernel
+
+/-! ## excluded region: input sides that are not multiples of the max stride -/
+
+def offgridUnet : Cfg :=
+  { fam := .unet, variant := 0, filters := 8, rate := ⟨2, 1⟩, maxStride := 8, bos := 2, stem := 0,
+    cpb := 2, middle := true, upInterp := true, inCh := 1, heads := [⟨2, 3⟩],
+    fixMid := true, fixWrap := true }
+
+def offgridSwin : Cfg :=
+  { fam := .swint, variant := 0, filters := 0, rate := ⟨2, 1⟩, maxStride := 16, bos := 1, stem := 2,
+    cpb := 2, middle := true, upInterp := true, inCh := 1, heads := [⟨1, 1⟩],
+    fixMid := true, fixWrap := true }
+
+/-- A valid, supported UNet (max stride 8) raises on a 17×17 input (fresh pools) and on a 20×20
+    input (stale pools): skip-connection sizes differ.  The property's restriction to multiples
+    of the max stride is needed. -/
+theorem offgrid_counterexample_raise :
+    inGrid offgridUnet = true ∧ docValid offgridUnet = true ∧ supported offgridUnet = true ∧
+      run offgridUnet true 17 17 = .err .runtime ∧ run offgridUnet false 20 20 = .err .runtime := by
+  decide +kernel
+
+/-- A valid, supported Swin-T (max stride 16, head stride 1) on a 33×33 input succeeds but returns
+    32×32: neither `⌊33/1⌋` nor an error — outside multiples of the max stride the output size is
+    not `input / stride`. -/
+theorem offgrid_counterexample_size :
+    inGrid offgridSwin = true ∧ docValid offgridSwin = true ∧ supported offgridSwin = true ∧
+      (match run offgridSwin true 33 33 with
+       | .ok f => f.outs == [(1, 32, 32)]
+       | .err _ => false) = true := by
+  decide +kernel
 
 /-! ## theorems about the GENERATED definitions (re-opened by any edit of the Python source) -/
 
